@@ -56,8 +56,10 @@ def rule_a(ctx, ix):
     trunc = [st for st in _stmts(do) if isinstance(st, ast.Assign) and unparse(st.targets[0]) == DONE]
     ok = any(unparse(st.value).replace(' ', '') == '%s[-MAX_UNDO:]' % DONE for st in trunc) or \
         any(isinstance(st, ast.Delete) and unparse(st.targets[0]).replace(' ', '') == '%s[:-MAX_UNDO]' % DONE for st in _stmts(do))
-    ctx.ob(R, do.construct, 'the undo history is truncated to MAX_UNDO', ok,
-           detail='CommandStack.do no longer truncates the undo history to the documented bound MAX_UNDO', where=do.where)
+    touches = [st for st in _stmts(do) if 'MAX_UNDO' in unparse(st)]
+    ctx.idiom(R, do.construct, 'the undo history is truncated to MAX_UNDO', accepted=ok, absent=not touches,
+              detail_absent='CommandStack.do no longer truncates the undo history to the documented bound MAX_UNDO',
+              shape='; '.join(norm(t) for t in touches), where=do.where)
     mod = ix.module('glue.core.command')
     mu = mod.assigns.get('MAX_UNDO')
     ctx.ob(R, 'glue.core.command:MAX_UNDO', 'MAX_UNDO is a positive literal', isinstance(mu, ast.Constant) and
